@@ -2654,6 +2654,38 @@ def _rule5(ctx, rep):
 # ---------------------------------------------------------------------------
 
 
+def _rule6(ctx, rep):
+    """added after seeded change C02-11: organize kept the run id of a node that was still queued; the dependent was then
+    dispatched under the old run id, loaded its producer's value of that old run and recomputed the stale result"""
+    prog = ctx.prog
+    f = prog.nfunc('dawgie.pl.schedule.organize')
+    rep.analysed(f)
+    with rep.rule(
+        'R-C02-6',
+        "organize stamps every node it schedules with the run id of the triggering event, unconditionally (the task message and the dependent's loads carry that run id)",
+        floor=1,
+        breaks='a dependent that is still queued from an earlier event runs under the earlier run id: it loads the value its producer stored then, not the one just reported new',
+    ) as r:
+        params = f.params()
+        sets = [c for c in f.calls() if isinstance(c.func, ast.Attribute) and c.func.attr == 'set' and len(c.args) == 2 and isinstance(c.args[0], ast.Constant) and c.args[0].value == 'runid']
+        key = f'{f.qname}:runid-stamped-unconditionally'
+        r.instance()
+        if not sets:
+            r.fail(key, where(f), "organize no longer stores the event's run id in the node attribute 'runid'")
+            return
+        for c in sets:
+            conds = shared.path_condition(f, c)
+            from_event = isinstance(c.args[1], ast.Name) and c.args[1].id in params
+            r.check(
+                not conds and from_event,
+                key,
+                where(f, c),
+                'the run id parameter is stored on every path of the node iteration',
+                f'{norm(c)} is ' + ('guarded by ' + ' and '.join(('' if o else 'not ') + '(' + norm(t)[:60] + ')' for t, o in conds) if conds else 'not the run id of the event')
+                + ': a node scheduled by this event can keep another run id',
+            )
+
+
 def check(ctx):
     rep = Report(
         PID,
@@ -2683,9 +2715,11 @@ def check(ctx):
     _rule3(ctx, rep)
     _rule4(ctx, rep, ranges)
     _rule5(ctx, rep)
+    _rule6(ctx, rep)
     shared.borrow(ctx, rep, [
         ('c03', lambda m: m.rule2(ctx, rep), 'a released job that falls out of the batch never runs: the reprocessing is incomplete'),
         ('c09', lambda m: m.rule4(ctx, rep, m.Facts(ctx)), 'update() walks the algorithm-level tree: a consumer edge lost by Node.trim is a consumer never run again'),
+        ('c07', lambda m: m._rule1(ctx, rep), 'a value is reported new - and its consumers are run again - exactly when its content has no name in the store yet: the name must be the digest of the whole staged file'),
         ('c06', lambda m: m.rule3(ctx, rep, m.Facts(ctx, rep)), 'a consumer run again must load what the producer just stored, not an entry picked by its own run id'),
     ])
     return rep
@@ -2704,6 +2738,9 @@ _ORG_REST = "                pass\n            pass\n        pass\n    log.debug
 _ORG_TAIL = _ORG_IF + _ORG_REST
 _COMPLETE = 'dawgie.pl.schedule.complete(job, msg.runid, inc, msg.timing, state)\n'
 VARIANTS = [
+    V('organize keeps the run id of a queued node', 'B', 'pl/schedule.py', 'organize', "n.set('runid', runid)", "if n not in que or n.get('runid') is None:\n                    n.set('runid', runid)", 'R-C02-6'),
+    V('organize stamps run id 0', 'B', 'pl/schedule.py', 'organize', "n.set('runid', runid)", "n.set('runid', 0)", 'R-C02-6'),
+
     # R-C02-1
     V('filter inverted', 'B', *_U, 'filter(lambda t: t[1], values)', 'filter(lambda t: not t[1], values)', 'R-C02-1'),
     V('filter dropped', 'B', *_U, 'filter(lambda t: t[1], values)', 'values', 'R-C02-1'),
